@@ -409,6 +409,8 @@ def framing_corpus(now, doc):
         ('utf8-ok-tail', good + 'é€\U0001d54a'.encode(), 259200),
         ('crlf-after-ts', ts + b'\r\n;' + doc, 259200),
         ('max-age-0-old', str(now - 5000).encode() + b';' + doc, 0),
+        ('at-write-time:max-age-0', b';' + doc, 0),        # timestamp = the second the file is written: age == max_age
+        ('at-write-time:max-age-1', b';' + doc, 1),
         ('max-age-huge', b'1;' + doc, 18446744073709551615),
     ]
     return F
@@ -427,6 +429,9 @@ def framing_layer(c, fend, scratch, stats, docs_by_src):
     lines = []
     impl = []
     for i, (src, name, data, age) in enumerate(cases):
+        if name.startswith('at-write-time:'):
+            data = str(int(time.time())).encode() + data
+            cases[i] = (src, name, data, age)
         d = os.path.join(scratch, 'lf')
         shutil.rmtree(d, ignore_errors=True)
         os.makedirs(d)
@@ -498,26 +503,40 @@ def l3_layer(c, fend, oracle, scratch, jobs, stats):
         with open(os.path.join(d, 'config.toml'), 'w') as fh:
             fh.write('exchange-rate-source = "%s"\nenable-colors = false\n' % ('EU' if src == 0 else 'UN'))
         cfgs[src] = d
-    # ---- model ----
-    cases = []        # (src, tag, edit, file bytes, expr, model outcome)
+    # ---- model (all jobs in three process batches) ----
+    TS = re.compile(rb'\+?[0-9]+\Z')
+    def clock_sensitive(data):
+        """a timestamp that changes sides (future/fresh/expired) while the check runs"""
+        k = data.find(b';')
+        if k < 0 or not TS.match(data[:k]):
+            return False
+        t = int(data[:k])
+        return now < t <= now + 3000 or now - age - 3000 <= t <= now - age
+    cases = []        # (src, tag, edit, file bytes, expr, model outcome, base)
+    prep = []
     for src, base, edits, tag in jobs:
-        groups = chunks(edits, 200)
-        tok_out = model_lines(c, [sx([Sym('tokens-batch'), src, 1, now, age, base, [list(e) for e in g]]) for g in groups])
-        toks = set()
-        for o in tok_out:
-            for per in parse_sx(o):
-                toks.update(per)
-        oracle.need(toks)
-        table = oracle.table(toks)
-        outs = model_lines(c, [sx([Sym('cache-batch'), src, 0, now, age, base, table, CURS, [list(e) for e in g]]) for g in groups])
-        mods = []
-        for o in outs:
-            mods.extend(parse_sx(o))
-        for k, (e, m) in enumerate(zip(edits, mods)):
+        kept = [e for e in edits if not clock_sensitive(apply_edit(base, e))]
+        stats['l3-skipped-clock-sensitive'] += len(edits) - len(kept)
+        prep.append((src, base, kept, tag, chunks(kept, 200)))
+    tl = [(bi, sx([Sym('tokens-batch'), b[0], 1, now, age, b[1], [list(e) for e in g]])) for bi, b in enumerate(prep) for g in b[4]]
+    toks = {}
+    for (bi, _), o in zip(tl, model_lines(c, [l for _, l in tl])):
+        for per in parse_sx(o):
+            toks.setdefault(bi, set()).update(per)
+    oracle.need(set().union(*toks.values()) if toks else set())
+    cl = [(bi, sx([Sym('cache-batch'), b[0], 0, now, age, b[1], oracle.table(toks.get(bi, ())), CURS, [list(e) for e in g]]))
+          for bi, b in enumerate(prep) for g in b[4]]
+    mods = {}
+    for (bi, _), o in zip(cl, model_lines(c, [l for _, l in cl])):
+        mods.setdefault(bi, []).extend(parse_sx(o))
+    for bi, (src, base, edits, tag, _) in enumerate(prep):
+        assert len(mods.get(bi, [])) == len(edits), (tag, len(edits))
+        for k, (e, m) in enumerate(zip(edits, mods.get(bi, []))):
             data = apply_edit(base, e)
             exprs = EXPRS[src] if (len(base) < 1500 or e[0] == 2) else [EXPRS[src][k % 2]]
             for ex in exprs:
                 cases.append((src, tag, e, data, ex, m, base))
+    stats['t_l3_model'] = int(time.time()) - now
     # ---- implementation: one process per case, FEND_CACHE_DIR = a private dir (gen/c20_worker.py) ----
     results = [None] * len(cases)
     worker = os.path.join(vlib.ROOT, 'gen', 'c20_worker.py')
@@ -536,6 +555,7 @@ def l3_layer(c, fend, oracle, scratch, jobs, stats):
             data = cases[k][3]
             after = data if p[3] == '=' else (None if p[3] == 'gone' else unhex(p[3]))
             results[k] = ((rc, unhex(p[1]), unhex(p[2])), after)
+    stats['t_l3_impl'] = int(time.time()) - now
     c.evaluations += len(cases)
     elapsed = int(time.time()) - now
     if elapsed > 900:
@@ -564,6 +584,7 @@ def l3_layer(c, fend, oracle, scratch, jobs, stats):
     lns = list(need)
     for ln, o in zip(lns, c.impl('cli', lns)):
         need[ln] = o
+    stats['t_l3_harness'] = int(time.time()) - now
     intact_out = {}
     for case, (res, after) in zip(cases, results):
         if case[2][0] == 2:
@@ -605,8 +626,8 @@ def l3_layer(c, fend, oracle, scratch, jobs, stats):
             if rc == 1 and se.startswith(b'Error: failed to retrieve '):
                 stats['l3-miss'] += 1
             elif rc == 0:
-                stats['l3-miss-downloaded'] += 1
-                c.notes.append('a cache miss succeeded (network available?) for case %s' % tag)
+                # only possible if a download succeeded; there is no network in the sandbox
+                c.violation('miss-but-success', dict(rep, kind='impl-vs-model', what='the model says the cache is not usable, fend printed a result'), no_input=True)
             else:
                 c.violation('miss-shape', dict(rep, kind='impl-vs-model'), no_input=True)
             continue
@@ -642,7 +663,7 @@ def check(c):
               'substitutions (structural ASCII, multi-byte / Unicode white space, deletion, insertion) + hand-made boundary files; '
               'LF framing corpus (34 framings x 2 sources); L3 real binary: all prefixes and substitutions of the small files (both expressions), '
               'a sample of the large ones, boundary files, framings.  non-trivial = damaged file; distinct by file content (sha1)'
-              % ('2' if quick else '10'))
+              % ('3' if quick else '10'))
     ok = c.proof(['C20'], extra_targets=['Extract/XCli.vo'])
     if c.tier == 'thorough' and ok:
         c.thorough_proof(['C20'])
@@ -661,7 +682,7 @@ def check(c):
     files = {}
     for n in ('eu_sample', 'eu_small', 'un_sample', 'un_small'):
         files[n] = open(os.path.join(CORPUS, n + '.xml'), 'rb').read()
-    nsub = 2 if quick else 10
+    nsub = 3 if quick else 10
     # ---------------- L1 ----------------
     blocks = []
     for name in ('eu_small', 'eu_sample', 'un_small', 'un_sample'):
@@ -698,11 +719,11 @@ def check(c):
         edits = [(2,)]
         cuts = list(range(len(base) + 1))
         if quick and not small:
-            cuts = sorted(set(r.sample(cuts, 500) + list(range(len(base) - 60, len(base) + 1))))
+            cuts = sorted(set(r.sample(cuts, 800) + list(range(len(base) - 60, len(base) + 1))))
         edits += [(0, n) for n in cuts]
         poss = list(range(len(base)))
         if quick:
-            poss = r.sample(poss, 600 if small else 300)
+            poss = r.sample(poss, 700 if small else 500)
         for pos in poss:
             for _ in range(1 if quick else 3):
                 edits.append((1, pos, rand_repl(r, base[pos])))
